@@ -44,6 +44,11 @@ def run(tier, seed):
                 ew.mk(root + "/src", sspec)
                 ew.mk(root + "/dst", sorted(dspec, key=lambda e: (e["p"].count("/"), e["k"] != "d")))
                 os.makedirs(root + "/src", exist_ok=True); os.makedirs(root + "/dst", exist_ok=True)
+            if i % 5 == 4 and not fl.get("dry"):
+                # a valid resume state left by an interrupted earlier run (nothing recorded as completed), with the same or with
+                # other flags: whatever the engine has to say about it must not go to standard output
+                dflag = fl.get("delete", 0) if r.random() < 0.5 else 1 - fl.get("delete", 0)
+                vlib.run_sharded([os.path.join(vlib.BIN, "h_cache")], ["RS %s %d -" % ((A + "/dst").encode().hex(), dflag)], shards=1)
             ids = ew.Ids()
             case, obs, raw = ew.run_once(sc, A + "/src", A + "/dst", fl, ids)
             cases.append(case); obs_l.append(obs)
@@ -52,7 +57,8 @@ def run(tier, seed):
             if raw["badlines"]:
                 w.append("%d stdout line(s) are not JSON objects: %r" % (raw["badlines"], raw["stdout_tail"][-160:]))
             # (2) events vs observable changes
-            before, after = raw["before"], raw["after"]
+            before = {k: v for k, v in raw["before"].items() if k not in ew.SY_META}      # sy's own state files are not part of the mirrored tree
+            after = {k: v for k, v in raw["after"].items() if k not in ew.SY_META}
             appeared = sorted(p for p in after if p not in before)
             gone = sorted(p for p in before if p not in after)
             changed = sorted(p for p in after if p in before and before[p]["kind"] == "f" and after[p]["kind"] == "f" and
